@@ -316,10 +316,11 @@ theorem C14_insert_reads_back {S : Scheme} {r r' : Record} {key : Bytes} {v : Va
   exact getBytes_of_lookup r' key bs hb hl
 
 /-- every update stores the signer's public key, and it reads back through `get_decodable` -/
-theorem C14_pubkey_reads_back {S : Scheme} (hL : S.Lawful) {r r' : Record} {op : Op S} {pk : S.PK}
+theorem C14_pubkey_reads_back {S : Scheme} {r r' : Record} {op : Op S} {pk : S.PK}
+    (hk : KeyOK S pk)
     {o : Option Bytes} {ret : Ret} (h : step S r op pk o = (.ok ret, r')) :
     r'.getBytes (S.enrKey pk) = some (S.encodePub pk) := by
-  apply getBytes_of_lookup _ _ _ (hL.pub_len pk).1
+  apply getBytes_of_lookup _ _ _ hk.1
   rw [(step_effect h).1]
   exact newContent_pubkey S op pk r.content
 
